@@ -195,7 +195,7 @@ func genHashFields(pkgs []*packages.Package) {
 				var calls []string
 				ast.Inspect(fd.Body, func(m ast.Node) bool {
 					if c, ok := m.(*ast.CallExpr); ok {
-						s := src(c)
+						s := normExpr(hashPkg.TypesInfo, hashPkg.Types, c)
 						if strings.HasPrefix(s, "hashstructure.Hash(") || strings.HasPrefix(s, "fmt.Sprintf(") {
 							calls = append(calls, s)
 						}
